@@ -179,6 +179,11 @@ def case_list(tier):
             # arguments of different rank are broadcast against each other before stacking
             for axis in (-3, -2, -1, 0, 1, 2):
                 cases.append((kind, "stack-mixed", "stack", 2, (2,), axis))
+        if kind == "xarray":
+            # operands of different rank are broadcast against each other *by dimension name* before stacking
+            for axis in (-3, -2, -1, 0, 1, 2):
+                cases.append((kind, "stack-mixed-x", "stack", 2, (2,), axis))
+                cases.append((kind, "stack-mixed-x", "stack", 2, (2,), axis, "second-dim"))
         for shape in shapes:
             for axis in range(len(shape)):
                 n_ax = shape[axis]
@@ -330,6 +335,19 @@ def apply_case(case, inputs):
         lab = [np.arange(a.size).reshape(a.shape) + 1000 * i for i, a in enumerate(inputs)]
         src = np.stack(np.broadcast_arrays(*lab), axis=axis)
         shape, want = src.shape, [inputs[v // 1000].flatten()[v % 1000] for v in src.flatten()]
+    elif fam == "stack-mixed-x":
+        axis = case[5]
+        d0 = DIMS[1] if case[-1] == "second-dim" else DIMS[0]
+        W = [xr.DataArray(inputs[0], dims=(d0,)), xr.DataArray(inputs[1], dims=DIMS[:2])]
+        got = f(*W, dim="new", axis=axis)
+        gdims = list(got.dims)
+        if "new" not in gdims or gdims.index("new") != axis % 3 or sorted(d for d in gdims if d != "new") != sorted(DIMS[:2]):
+            return (("dims", tuple(gdims)), [1]), (("dims", "new at position", axis % 3), [0])
+        others = [d for d in gdims if d != "new"]
+        lab = [xr.DataArray(np.arange(2), dims=(d0,)), xr.DataArray(np.arange(4).reshape(2, 2) + 1000, dims=DIMS[:2])]
+        full = [b.transpose(*others).values for b in xr.broadcast(*lab)]
+        src = np.stack(full, axis=axis)
+        shape, want = src.shape, [inputs[v // 1000].flatten()[v % 1000] for v in src.flatten()]
     elif fam == "concat":
         axis = case[5]
         got = f(*W, axis=axis) if kind == "numpy" else f(*W, dim=DIMS[axis])
@@ -393,7 +411,7 @@ def run_case(case):
         out["solver_queries"], out["solver_seconds"], out["wall"] = 0, 0.0, time.perf_counter() - t0
         return out
     try:
-        if fam == "stack-mixed":
+        if fam in ("stack-mixed", "stack-mixed-x"):
             names = {"a0": (2,), "a1": (2, 2)}
 
         def once():
